@@ -16,9 +16,10 @@ import c01_common as cm  # noqa
 PID = 'C01'
 COQ_HEAD = '\n'.join([
     'From Coq Require Import String List ZArith QArith Qabs.', 'Import ListNotations.',
-    'From FV.C01 Require Import Str Dec Model.', 'Open Scope string_scope.',
+    'From FV.C01 Require Import Str Dec Model Materials.', 'Open Scope string_scope.',
     'Set Printing Width 100000.', 'Set Printing Depth 100000.',
-    'Definition dq s := match parse_dec s with Some d => d | None => dec_zero end.', ''])
+    'Definition dq s := match parse_dec s with Some d => d | None => dec_zero end.',
+    'Definition dqf s := match parse_dec_free s with Some d => d | None => dec_zero end.', ''])
 COQ_HEAD_ORIENT = COQ_HEAD + '\n'.join([
     'From FV.C01 Require Import Orient.',
     'Definition sgn (q : Q) : Z := Z.sgn (Qnum q).',
@@ -136,6 +137,18 @@ def make_variants(rng, lines, tier):
     vs.append(('combo', v_blank_hash(rng, combo)))
     bi, hdr = v_bang_inside(rng, lines)
     vs.append(('bang-inside:' + ('node' if '!NODE' in hdr else 'element'), bi))
+    # several ids per line in the !EGROUP blocks
+    em, changed = [], False
+    for h, a, b in block_spans(lines):
+        rows = lines[a:b]
+        em.append(lines[h])
+        if '!EGROUP' in lines[h] and len(rows) >= 2 and len(rows) % 2 == 0:
+            em += [rows[k] + ',' + rows[k + 1] for k in range(0, len(rows), 2)]
+            changed = True
+        else:
+            em += rows
+    if changed:
+        vs.append(('egroup-multi', em))
     # a group / initial-condition block split into two blocks of the same name
     for key, tag in (('!EGROUP', 'split-egroup'), ('!INITIAL', 'split-initial')):
         sp, n = v_split(rng, lines, keys=(key,))
@@ -157,7 +170,16 @@ def expected_roundtrip(mesh):
     temp = None
     if mesh.get('temp') is not None:
         temp = {i: cm.f2dec(v) for i, v in zip(*mesh['temp']) if i in ref}
-    return {'coords': coords, 'elems': elems, 'groups': groups, 'sections': sections, 'temp': temp}
+    mats = [[n, cm.f2dec(e, 8), cm.f2dec(nu, 8)] for n, e, nu in mesh.get('materials') or []]
+    assigned = {}
+    if mats:
+        mv = {n: (e, nu) for n, e, nu in mats}
+        gm = dict((k, v) for k, v in mesh.get('egroups') or [])
+        for mat, _, grp in sections:
+            for e in gm[grp]:
+                assigned[e] = mv[mat]
+    return {'coords': coords, 'elems': elems, 'groups': groups, 'sections': sections, 'temp': temp,
+            'materials': mats, 'assigned': assigned}
 
 
 def observed_maps(r):
@@ -169,7 +191,16 @@ def observed_maps(r):
     for k, ids, rows in r['initial']:
         if k == 'TEMPERATURE':
             temp = {i: cm.f2dec(row[0]) for i, row in zip(ids, rows)}
-    return {'coords': coords, 'elems': elems, 'groups': groups,
+    mats, assigned = [], {}
+    if r.get('materials'):
+        names = r['materials'][0][1]
+        cols = [[cm.f2dec(row[0], 8) for row in rows] for _, _, rows in r['materials']]
+        mats = [[n] + [c[k] for c in cols] for k, n in enumerate(names)]
+    if r.get('elemental'):
+        for bi, (t, ids, rows) in enumerate(r['elemental'][0][1]):
+            for k, i in enumerate(ids):
+                assigned[i] = tuple(cm.f2dec(p[1][bi][2][k][0], 8) for p in r['elemental'])
+    return {'coords': coords, 'elems': elems, 'groups': groups, 'materials': mats, 'assigned': assigned,
             'sections': [list(s) for s in r['sections']], 'temp': temp,
             'all': sorted(allg[0]) if allg else None,
             'n_nodes': len(r['node_ids']), 'n_elems': sum(len(ids) for _, ids, _ in r['elems'])}
@@ -189,6 +220,10 @@ def roundtrip_diff(mesh, r):
         bad.append('sections')
     if o['temp'] != e['temp']:
         bad.append('initial_temperature')
+    if o['materials'] != e['materials']:
+        bad.append('materials')
+    if o['assigned'] != e['assigned']:
+        bad.append('material_assignment')
     return bad
 
 
@@ -222,6 +257,22 @@ def fistr_measure(ty, q):
     if ty == 'prism':
         return det3(vsub(q[1], q[0]), vsub(q[2], q[0]), vsub(vsum(q[3:6]), vsum(q[0:3])))
     return det3(vsub(q[2], q[0]), vsub(q[3], q[1]), vsub(vsum(q[4:8]), vsum(q[0:4])))
+
+
+def gen_large(seed, nn=70001):
+    """deterministic mesh with a node table and a temperature table of more than 65 536 rows;
+    the elements reference the rows next to the 2^16 boundary and the ends of both tables"""
+    import random
+    rng = random.Random(f'C01-large:{seed}')
+    ids = list(range(1, nn + 1))
+    rng.shuffle(ids)
+    return {'node_ids': ids,
+            'coords': [[float(rng.randint(-10 ** 6, 10 ** 6) / 8.0).hex() for _ in range(3)] for _ in ids],
+            'elems': [['tet', [3, 1, 2], [[ids[65535], ids[65536], ids[0], ids[-1]],
+                                          [ids[nn - 65536], ids[nn - 65537], ids[65534], ids[65537]],
+                                          rng.sample(ids, 4)]]],
+            'temp': [list(reversed(ids)), [float(i % 977).hex() for i in ids]],
+            'meta': {'types': ['tet'], 'n_unref': nn - 12, 'temp': 'permuted', 'size': 'large-table'}}
 
 
 def gen_orient_cases(rng, n):
@@ -367,7 +418,7 @@ def main(ctx):
     model_ok = tie_ok
     orient_ok = proof_ok
     if tie_ok and not proof_ok:
-        ok, log, _ = lib.coq_make(['C01/Model.vo'])
+        ok, log, _ = lib.coq_make(['C01/Materials.vo'])
         model_ok = ok
         if not ok:
             ctx.notes['model_build_log_tail'] = log[-1500:]
@@ -392,8 +443,8 @@ def main(ctx):
     while len(meshes) < n_mesh + len(corpus):
         meshes.append(cm.gen_mesh(ctx.rng, size='small' if ctx.rng.random() < 0.8 else 'large'))
     work = ctx.scratch / 'work'
-    jobs = [{'op': 'write_read', 'id': i, 'dir': str(work / f'm{i}'), 'mesh': m, 'msh_only': True}
-            for i, m in enumerate(meshes)]
+    jobs = [{'op': 'write_read', 'id': i, 'dir': str(work / f'm{i}'), 'mesh': cm.child_mesh(ctx.rng, m),
+             'msh_only': True} for i, m in enumerate(meshes)]
     # every second mesh is written with overwrite=True over an earlier export of a different mesh
     for i, j in enumerate(jobs):
         if i % 2 == 1:
@@ -487,12 +538,13 @@ def main(ctx):
     for i, m in enumerate(meshes):
         r = res1[i]
         exp = r['lines'] if 'lines' in r else ['ERROR']
-        text_items.append((i, f'lines_eqb (show_lines (write_msh {cm.coq_mesh(m)})) {cm.coq_lines(exp)}'))
+        text_items.append((i, f'lines_eqb (show_lines (write_msh_mat {cm.coq_mesh(m)} {cm.coq_mats(m)})) '
+                              f'{cm.coq_lines(exp)}'))
         if 'lines' in r:
-            read_items.append((i, f'lines_eqb (show_result (read_msh {cm.coq_lines(r["lines"])})) '
+            read_items.append((i, f'lines_eqb (show_full {cm.coq_lines(r["lines"])}) '
                                   f'{cm.coq_lines(shown(r))}'))
     for vid, (i, kind, vl) in vinfo.items():
-        read_items.append((100000 + vid, f'lines_eqb (show_result (read_msh {cm.coq_lines(vl)})) '
+        read_items.append((100000 + vid, f'lines_eqb (show_full {cm.coq_lines(vl)}) '
                                          f'{cm.coq_lines(shown(res2[vid]))}'))
     bad_text = bad_read = None
     if model_ok:
@@ -600,6 +652,30 @@ def main(ctx):
                           'correspondence C01 orientation kernels', found_input=False,
                           signature={'kind': 'correspondence', 'side': 'orientation', 'type': c['type']},
                           what='volume kernel / orientation model disagrees with femio')
+    # sizes: one table with more than 65 536 rows (nodes and initial temperatures), on the
+    # implementation only, against the round-trip oracle (thorough tier, and whenever the tie
+    # is broken: extended search)
+    if tier == 'thorough' or not tie_ok or not proof_ok:
+        t0 = time.time()
+        big = gen_large(ctx.seed)
+        nn = len(big['node_ids'])
+        rb = cm.run_child(ctx, [{'op': 'write_read', 'id': 0, 'dir': str(work / 'big'), 'mesh': big,
+                                 'msh_only': True}], 'big')[0]
+        ctx.case(['large-table', nn], nontrivial=True)
+        ctx.count('size:large-table(70001 rows)')
+        n_eval += 1
+        comps = ['exception'] if 'read' not in rb else roundtrip_diff(big, rb['read'])
+        ctx.log(f'large-table case ({nn} node rows): {time.time() - t0:.1f}s, differs in {comps}')
+        if comps:
+            impl_bad += 1
+            small = {k: (v if k in ('elems', 'meta') else '<%d entries: regenerate with seed>' % nn)
+                     for k, v in big.items()}
+            ctx.violation('impl-violation', {'large_mesh': small, 'seed': ctx.seed},
+                          'read(write(mesh)) = mesh for a table of more than 65 536 rows',
+                          {'differs_in': comps, 'error': rb.get('write_error') or rb.get('read_error')},
+                          'C01_msh_roundtrip / oracle on implementation (large table)',
+                          found_input=True, signature={'oracle': 'roundtrip', 'size': 'large-table'},
+                          what=f'round trip of a {nn}-row table changes {comps}')
     ctx.notes['search_evaluations'] = n_eval
     ctx.notes['impl_property_failures'] = impl_bad
 
@@ -607,14 +683,14 @@ def main(ctx):
     def explain(idx):
         if idx >= 100000:
             i, kind, vl = vinfo[idx - 100000]
-            model = coq_show(ctx, 'Explain', f'show_result (read_msh {cm.coq_lines(vl)})')
+            model = coq_show(ctx, 'Explain', f'show_full {cm.coq_lines(vl)}')
             return ({'variant': kind, 'text': vl}, shown(res2[idx - 100000]), model, 'read:' + kind.split(':')[0])
         m = meshes[idx]
         return ({'mesh': m}, None, None, 'mesh')
 
     if bad_text:
         for i in bad_text[:3]:
-            model = coq_show(ctx, 'Explain', f'show_lines (write_msh {cm.coq_mesh(meshes[i])})')
+            model = coq_show(ctx, 'Explain', f'show_lines (write_msh_mat {cm.coq_mesh(meshes[i])} {cm.coq_mats(meshes[i])})')
             ctx.violation('correspondence', {'mesh': meshes[i]}, {'model_text': model},
                           {'femio_text': res1[i].get('lines'), 'write_error': res1[i].get('write_error')},
                           'correspondence C01 text: femio .msh = Model.write_msh (byte for byte)',
@@ -627,7 +703,7 @@ def main(ctx):
             else:
                 case = {'mesh': meshes[idx], 'text': res1[idx]['lines']}
                 impl = shown(res1[idx])
-                model = coq_show(ctx, 'Explain', f'show_result (read_msh {cm.coq_lines(res1[idx]["lines"])})')
+                model = coq_show(ctx, 'Explain', f'show_full {cm.coq_lines(res1[idx]["lines"])}')
                 tag = 'read:base'
             ctx.violation('correspondence', case, {'model_read': model}, {'femio_read': impl},
                           'correspondence C01 read: femio read_files = Model.read_msh',
@@ -709,7 +785,7 @@ def replay(path):
         res = cm.run_child(ctx, jobs, 'replay')
         sv = cm.show_read(res[0]['read']) if 'read' in res[0] else ['ERROR', res[0].get('read_error')]
         print('implementation, variant text :', json.dumps(sv))
-        model = coq_show(ctx, 'Replay', f'show_result (read_msh {cm.coq_lines(c["text"])})')
+        model = coq_show(ctx, 'Replay', f'show_full {cm.coq_lines(c["text"])}')
         print('model, variant text          :', json.dumps(model))
         bad = False
         if 'base_text' in c:
@@ -727,7 +803,7 @@ def replay(path):
         res = cm.run_child(ctx, [job], 'replay')[0]
         print('implementation text:', json.dumps(res.get('msh', res.get('write_error'))))
         print('implementation read:', json.dumps(cm.show_read(res['read']) if 'read' in res else res.get('read_error')))
-        model = coq_show(ctx, 'Replay', f'show_lines (write_msh {cm.coq_mesh(m)})')
+        model = coq_show(ctx, 'Replay', f'show_lines (write_msh_mat {cm.coq_mesh(m)} {cm.coq_mats(m)})')
         print('model text         :', json.dumps(model))
         bad = 'read' not in res or bool(roundtrip_diff(m, res['read']))
         print('mesh modified by write():', res.get('mutated'), '; second write identical:',
@@ -737,6 +813,15 @@ def replay(path):
             print('round trip differs in:', roundtrip_diff(m, res['read']))
         print('property', 'VIOLATED' if bad else 'holds', 'on this input')
         return 1 if bad else 0
+    if 'large_mesh' in c:
+        big = gen_large(c['seed'])
+        rb = cm.run_child(ctx, [{'op': 'write_read', 'id': 0, 'dir': str(work / 'big'), 'mesh': big,
+                                 'msh_only': True}], 'replay')[0]
+        comps = ['exception: ' + str(rb.get('write_error') or rb.get('read_error'))] \
+            if 'read' not in rb else roundtrip_diff(big, rb['read'])
+        print(f'large table ({len(big["node_ids"])} rows): round trip differs in', comps)
+        print('property', 'VIOLATED' if comps else 'holds', 'on this input')
+        return 1 if comps else 0
     print('nothing to replay on the implementation:', json.dumps(rp, indent=1)[:2000])
     return 1
 
